@@ -26,6 +26,9 @@ type Mutant struct {
 	More   []MutEdit `json:"more,omitempty"`
 	Expect string    `json:"expect,omitempty"` // rule id (prefix) that must report; positive only
 	Note   string    `json:"note,omitempty"`
+	// Diff: a unified diff (path relative to the verification directory) applied instead of
+	// find/replace edits; used for the mutation-campaign corpus written by sub-agents
+	Diff string `json:"diff,omitempty"`
 }
 
 type MutEdit struct {
@@ -50,18 +53,117 @@ type mutantSummary struct {
 }
 
 func loadMutants(prop string) ([]Mutant, error) {
+	var ms []Mutant
 	b, err := os.ReadFile(filepath.Join(verifDir(), "mutants", prop+".json"))
-	if err != nil {
-		if os.IsNotExist(err) {
-			return nil, nil
-		}
+	if err != nil && !os.IsNotExist(err) {
 		return nil, err
 	}
-	var ms []Mutant
-	if err := json.Unmarshal(b, &ms); err != nil {
-		return nil, fmt.Errorf("mutants/%s.json: %w", prop, err)
+	if err == nil {
+		if err := json.Unmarshal(b, &ms); err != nil {
+			return nil, fmt.Errorf("mutants/%s.json: %w", prop, err)
+		}
+	}
+	// campaign corpus: every candidate whose expected rule belongs to this property
+	cb, err := os.ReadFile(filepath.Join(verifDir(), "campaign", "EXPECT.json"))
+	if err == nil {
+		var exp map[string]struct {
+			Expect string `json:"expect"`
+			Note   string `json:"note"`
+		}
+		if err := json.Unmarshal(cb, &exp); err != nil {
+			return nil, fmt.Errorf("campaign/EXPECT.json: %w", err)
+		}
+		var names []string
+		for n := range exp {
+			names = append(names, n)
+		}
+		sort.Strings(names)
+		for _, n := range names {
+			e := exp[n]
+			if strings.HasPrefix(e.Expect, prop+".") {
+				ms = append(ms, Mutant{Name: "campaign/" + n, Kind: "positive", Expect: e.Expect, Diff: filepath.Join("campaign", n+".diff"), Note: e.Note})
+			}
+		}
 	}
 	return ms, nil
+}
+
+// applyUnifiedDiff applies a git-style unified diff to the files under dir and
+// returns the resulting contents as an overlay (nil + reason if a hunk does not
+// apply exactly).
+func applyUnifiedDiff(dir, diff string) (map[string][]byte, string) {
+	ov := map[string][]byte{}
+	lines := strings.Split(diff, "\n")
+	i := 0
+	for i < len(lines) {
+		if !strings.HasPrefix(lines[i], "+++ ") {
+			i++
+			continue
+		}
+		name := strings.TrimPrefix(strings.TrimPrefix(lines[i], "+++ "), "b/")
+		i++
+		path := filepath.Join(dir, name)
+		b, err := os.ReadFile(path)
+		if err != nil {
+			return nil, "file missing: " + name
+		}
+		src := strings.Split(string(b), "\n")
+		var out []string
+		pos := 0 // next unread line of src
+		for i < len(lines) && strings.HasPrefix(lines[i], "@@") {
+			var oldStart, oldLen, newStart, newLen int
+			oldLen, newLen = 1, 1
+			hdr := lines[i]
+			if n, _ := fmt.Sscanf(hdr, "@@ -%d,%d +%d,%d @@", &oldStart, &oldLen, &newStart, &newLen); n < 4 {
+				if n2, _ := fmt.Sscanf(hdr, "@@ -%d +%d,%d @@", &oldStart, &newStart, &newLen); n2 < 3 {
+					fmt.Sscanf(hdr, "@@ -%d,%d +%d @@", &oldStart, &oldLen, &newStart)
+				}
+			}
+			i++
+			if oldStart-1 < pos || oldStart-1 > len(src) {
+				return nil, "hunk out of order in " + name
+			}
+			out = append(out, src[pos:oldStart-1]...)
+			pos = oldStart - 1
+			for i < len(lines) && !strings.HasPrefix(lines[i], "@@") && !strings.HasPrefix(lines[i], "diff --git") {
+				l := lines[i]
+				if l == "" && i == len(lines)-1 {
+					i++
+					break
+				}
+				switch {
+				case strings.HasPrefix(l, "+"):
+					out = append(out, l[1:])
+				case strings.HasPrefix(l, "-"):
+					if pos >= len(src) || src[pos] != l[1:] {
+						return nil, fmt.Sprintf("hunk does not apply in %s at line %d", name, pos+1)
+					}
+					pos++
+				case strings.HasPrefix(l, " ") || l == "":
+					want := ""
+					if l != "" {
+						want = l[1:]
+					}
+					if pos >= len(src) || src[pos] != want {
+						return nil, fmt.Sprintf("context mismatch in %s at line %d", name, pos+1)
+					}
+					out = append(out, src[pos])
+					pos++
+				case strings.HasPrefix(l, "\\"):
+					// "\ No newline at end of file"
+				default:
+					return nil, "unrecognised diff line in " + name
+				}
+				i++
+			}
+		}
+		out = append(out, src[pos:]...)
+		ov[path] = []byte(strings.Join(out, "\n"))
+	}
+	if len(ov) == 0 {
+		return nil, "empty diff"
+	}
+	return ov, ""
 }
 
 func (m *Mutant) edits() []MutEdit {
@@ -72,6 +174,17 @@ func (m *Mutant) edits() []MutEdit {
 // anchor text no longer exists (mutant skipped).
 func (m *Mutant) overlayFor(dir string) (map[string][]byte, bool, string) {
 	ov := map[string][]byte{}
+	if m.Diff != "" {
+		b, err := os.ReadFile(filepath.Join(verifDir(), m.Diff))
+		if err != nil {
+			return nil, false, "diff missing: " + m.Diff
+		}
+		ov, why := applyUnifiedDiff(dir, string(b))
+		if ov == nil {
+			return nil, false, why
+		}
+		return ov, true, ""
+	}
 	for _, e := range m.edits() {
 		p := filepath.Join(dir, e.File)
 		src, ok := ov[p]
